@@ -176,7 +176,7 @@ def main(argv):
                 s = s.replace("_can_use_trickery: Optional[bool] = None", "_leak: List[object] = []\n_can_use_trickery: Optional[bool] = None", 1)
             open(p, "w").write(s)
             if not no_tests:
-                rc, out = sh("/venv/bin/python -m pytest -q -x -p no:cacheprovider --timeout=900 stackscope", env={"PYTHONPATH": scratch}, cwd=scratch)
+                rc, out = sh("/venv/bin/python -m pytest -q -x -p no:cacheprovider --timeout=60 stackscope", env={"PYTHONPATH": scratch}, cwd=scratch, timeout=400)
                 res["tests_pass"] = rc == 0
             t0 = time.time()
             legs = " --legs " + x["legs"] if x["legs"] else ""
